@@ -1,4 +1,5 @@
-"""P part of C13: row-level filtering (api.ParquetFile._column_filter / _columns_from_filters / to_pandas mask branch / count)."""
+"""P part of C13: row-level filtering (api.ParquetFile._column_filter / _columns_from_filters / to_pandas mask branch / count /
+read_row_group_file stand-alone and pass-through branches)."""
 import re
 
 from contracts import c13_rowfilter as C
@@ -11,7 +12,7 @@ KNOWN = [
 ]
 FUNCTION = {"column_filter": "api.ParquetFile._column_filter", "ops_table": "api.ParquetFile._column_filter",
             "columns_from_filters": "api.ParquetFile._columns_from_filters", "to_pandas": "api.ParquetFile.to_pandas",
-            "count": "api.ParquetFile.count"}
+            "count": "api.ParquetFile.count", "read_row_group_file": "api.ParquetFile.read_row_group_file"}
 
 
 def p_rowfilter(ctx):
